@@ -4,6 +4,7 @@ import XpmVerif.Model.IdentImpl
 import XpmVerif.Model.Deps
 import XpmVerif.Generated.HashFlags
 import XpmVerif.Model.ArgDecl
+import XpmVerif.Model.ClassTable
 import XpmVerif.Model.IdentEnv
 /-! Line-protocol driver for M1 (identifiers, sealing): C01 C02 C03 C14 C20. -/
 open Lean XpmVerif XpmVerif.J XpmVerif.Ident
@@ -72,6 +73,15 @@ def attrOf (j : Json) : ArgDecl.ClassAttr :=
 def declOf (j : Json) : ArgDecl.Decl :=
   { name := unhex (strF j "name"), kind := kindOf (strF j "kind"), ty := tyOf (strF j "ty"), optional := boolF j "optional",
     attr := attrOf (fld j "attr") }
+
+/-- class table (`Model/ClassTable.lean`): `[{"bases": [i], "mro": [i], "own": [decl]}]` -/
+def tableOf (j : Json) : ArgDecl.ClassTable :=
+  (arr j).map (fun c => { bases := (arrF c "bases").map nat, mro := (arrF c "mro").map nat, own := (arrF c "own").map declOf })
+
+def flagsOfArg : Option Arg → Json
+  | none => Json.str "rejected"
+  | some a => Json.mkObj [("ignored", a.ignored), ("generator", a.generator), ("constant", a.constant),
+      ("required", a.required), ("hasDefault", a.default.isSome)]
 
 /-- the flags `mkArg` derives for a declaration, as compared with the real `Argument` object. -/
 def flagsJ (d : ArgDecl.Decl) : Json :=
@@ -161,6 +171,17 @@ def stepJ (xs : XSt D) (j : Json) : XSt D × Json :=
     let all := (collectDeps g' n ++ explicit).eraseDups
     keep (s, Json.mkObj [("deps", Json.arr ((all.toArray.qsort (· < ·)).map (fun (k : Nat) => (k : Json))))])
   | "flags" =>  -- flags derived from the declarations of a class library: [[flags per declaration] per class]
+    if !isNull (fld j "table") then
+      -- with the class table: the model resolves which declaration is in force for each parameter name of each class
+      -- (`classArg`: own declaration, else through the bases by the rule read from the source; class attribute along the MRO)
+      let t := tableOf (fld j "table")
+      keep (s, Json.mkObj [("flags", Json.arr ((arrF j "classes").map (fun c =>
+        Json.arr (((arrF c "names").map (fun nm =>
+          match ArgDecl.effDecl t Gen.ArgFlags.inheritRule (natF c "idx") (unhex (J.str nm)) with
+          | none => Json.str "missing"
+          | some d => flagsOfArg (ArgDecl.mkArg d))).toArray))).toArray),
+        ("rule", match Gen.ArgFlags.inheritRule with | .depthFirst => "depthFirst" | .mro => "mro")])
+    else
     keep (s, Json.mkObj [("flags", Json.arr ((arrF j "classes").map (fun c =>
       Json.arr (((arrF c "decls").map (fun d => flagsJ (declOf d))).toArray))).toArray)])
   | "sealed" => keep (s, Json.mkObj [("sealed", Json.arr ((s.g.nodes.map (fun nd => (nd.sealed : Json))).toArray))])
